@@ -191,6 +191,11 @@ func (l *Lin) Expr(v ssa.Value) (Term, int64) {
 			}
 			return Term{K: TVal, V: v}, off
 		case *ssa.BinOp:
+			// linear only where the arithmetic cannot wrap silently: int / int64 (and uintptr-free code). Unsigned
+			// and narrow types wrap (uint32(h) - 4 is 4294967292 for h == 0): such a result is an opaque value
+			if bt, ok := x.Type().Underlying().(*types.Basic); !ok || (bt.Kind() != types.Int && bt.Kind() != types.Int64 && bt.Kind() != types.UntypedInt) {
+				return Term{K: TVal, V: v}, off
+			}
 			switch x.Op {
 			case token.ADD:
 				if c, ok := constIntOf(x.Y); ok {
